@@ -2,3 +2,8 @@
 import VirtioVerif.Model.Proto
 import VirtioVerif.Model.Layout
 import VirtioVerif.Props.C06
+import VirtioVerif.Model.Mmio
+import VirtioVerif.Model.Config
+import VirtioVerif.Spec.MmioRegs
+import VirtioVerif.Props.C10
+import VirtioVerif.Props.C13
